@@ -575,9 +575,9 @@ MANIFEST = dict(
     note=TB + "Domain: the theorems quantify over ENCODED strings; read on Rust Strings they speak about strings s with decode(encode s) = s "
               "(lossless; checked per string by the harness). For keys, the title and legacy messages this EXCLUDES U+00A5, U+203E and U+2212, "
               "which encoding_rs' Shift-JIS encoder accepts (5C, 7E, 81 7C) but which come back as U+005C, U+007E, U+FF0D (the round trip holds for "
-              "them only up to decode o encode); UTF-16 messages have no exclusion. Big-endian archives: the byte-exact comparison of the label "
-              "table is restricted to keys whose Shift-JIS byte order equals their String order (see notes; the order of BE label names is "
-              "handled by a separate work item). "
+              "them only up to decode o encode); UTF-16 messages have no exclusion. Big-endian archives: the library orders the label table by the keys as Strings; the model takes the "
+              "sort key as a parameter (TextFormat.serialize kf), every theorem holds for every kf, and the run passes the library's own decoding of every "
+              "key (case-line group K), so the byte-exact comparison covers all keys (kanji, Greek, mixed). "
               "All C06 theorems are premise-free (hypotheses: distinct keys, NUL-free encoded text, valid UTF-16, bytes < 256, image < 2^32). "
               "Modelled, not verified: encoding_rs Shift-JIS (A-codec, checked by the harness per case and by the sweep; the history theorem uses it only on "
               "ASCII, where it is the identity), IndexMap, Vec (A-std); encode_utf16 / the UTF-16 decoder are modelled AND proved inverse, and tied to the library "
